@@ -86,6 +86,7 @@ void Label::apply_repetition(Array<Label*>& result) {
     Array<Vec2> offsets = {};
     repetition.get_offsets(offsets);
     repetition.clear();
+    if (offsets.count == 0) return;  // zero columns or rows: nothing to copy
 
     // Skip first offset (0, 0)
     double* offset_p = (double*)(offsets.items + 1);
